@@ -169,6 +169,16 @@ func TestC03(t *testing.T) {
 		if err != nil {
 			r.Infra(t, "replay: %v", err)
 		}
+		if rp.Limbs == nil && rp.V == nil && rp.Backend == "" {
+			// replay of a bound-monitor finding (no assignment involved)
+			viol, _ := c03Monitor(rp.Base)
+			r.Case("replay", true, fmt.Sprint(rp), func() any { return rp })
+			if len(viol) > 0 {
+				r.Fail(t, "C03/packing-wrap-free", rp, "%s", strings.Join(viol, "; "))
+			}
+			r.Done()
+			return
+		}
 		v, d, _, _ := c03Run(rp)
 		r.Case("replay", true, fmt.Sprint(rp), func() any { return rp })
 		if v {
